@@ -195,7 +195,10 @@ def run(C, R):
                             good = True
                     if e['k'] == 'cmp' and e['a'] == a and e['b'] == b:
                         good = True
-                if path.ret == ('bin', 'Eq', a, b):
+                # eq: equality is symmetric; `!(a != b)` is the same predicate
+                if fn.get('name') == 'eq' and path.ret in (('bin', 'Eq', a, b), ('bin', 'Eq', b, a),
+                                                            ('un', 'Not', ('bin', 'Ne', a, b)),
+                                                            ('un', 'Not', ('bin', 'Ne', b, a))):
                     good = True
                 if good:
                     R.ok('C15.R4', fn['path'])
